@@ -118,7 +118,7 @@ func loadRepo() (*sym.Loaded, error) {
 	}
 	ld, err := sym.Load(sym.LoadConfig{
 		RepoDir:    repoDir,
-		Patterns:   []string{"./pkg/zz_verif"},
+		Patterns:   []string{"./pkg/zz_verif", "."},
 		Tags:       "verif",
 		InterpPref: []string{modPath},
 	}, ov)
@@ -141,6 +141,11 @@ func cmdRun(names []string, trace bool, workers int, mapOrder bool, maxPaths int
 	defer cleanupCorpus()
 	for _, n := range names {
 		fn := hp.Func(n)
+		if fn == nil {
+			if mp := ld.SSA[modPath]; mp != nil {
+				fn = mp.Func(n) // a harness injected into package main
+			}
+		}
 		eng := ld.Engine
 		if parts := strings.SplitN(n, ".", 2); len(parts) == 2 {
 			w := getCorpus()
@@ -350,6 +355,11 @@ func cmdCheck(prop, tier string) int {
 			continue
 		}
 		fn := hp.Func(sp.Name)
+		if sp.Pkg == "." {
+			if mp := ld.SSA[modPath]; mp != nil {
+				fn = mp.Func(sp.Name)
+			}
+		}
 		if fn == nil {
 			fmt.Fprintf(os.Stderr, "HARNESS-MISSING %s\n", sp.Name)
 			return 2
